@@ -824,6 +824,99 @@ theorem restoreLoop_acyclic (entries : List Entry) : ∀ h, Acyclic h → Acycli
 theorem restore_acyclic (h : Hub) (entries : List Entry) : Acyclic (restore h entries).1 :=
   restoreLoop_acyclic entries Hub.empty empty_acyclic
 
+/-- The ports that remain when `PUT /ports` starts applying its entries hold no expression: no edge at all. -/
+theorem remaining_acyclic (keep : List String) (h : Hub) : Acyclic (remaining keep h) :=
+  blank_acyclic _
+
+theorem restoreOver_acyclic (keep : List String) (h : Hub) (entries : List Entry) :
+    Acyclic (restoreOver keep h entries).1 :=
+  restoreLoop_acyclic entries _ (remaining_acyclic keep h)
+
+/-- With no driver port the general restore is the all-virtual one. -/
+theorem restoreOver_nil (h : Hub) (entries : List Entry) : restoreOver [] h entries = restore h entries := by
+  unfold restoreOver restore remaining
+  have : (h.ports.filter fun p => ([] : List String).contains p.id) = [] := by
+    simp
+  rw [this]
+  rfl
+
+/-- The expressions held before the restore play no part in it: whatever expression a port held (a stale one that reads
+a port the backup makes read it back, say), the restore does exactly what it does on the hub without it. -/
+theorem restoreOver_ignores_stale (keep : List String) (h : Hub) (id : String) (e : Option Expr) (entries : List Entry) :
+    restoreOver keep (h.setExpr id e) entries = restoreOver keep h entries := by
+  unfold restoreOver
+  congr 1
+  unfold remaining Hub.setExpr Hub.modify
+  simp only [List.filter_map, List.map_map]
+  have h1 : ((fun p : PortEntry => keep.contains p.id) ∘ fun p => if (p.id == id) = true then { p with expr := e } else p)
+      = fun p => keep.contains p.id := by
+    funext p
+    simp only [Function.comp]
+    split <;> rfl
+  have h2 : ((fun p : PortEntry => ({ p with expr := none } : PortEntry)) ∘
+      fun p => if (p.id == id) = true then { p with expr := e } else p) = fun p => { p with expr := none } := by
+    funext p
+    simp only [Function.comp]
+    split <;> rfl
+  rw [h1, h2]
+
+/-- A restore that ends with a circular-dependency refusal was refused at one definite entry: the entries before it
+were all applied, and that entry's own checked assignment reported the loop. -/
+theorem restoreLoop_circular (entries : List Entry) : ∀ h, (restoreLoop h entries).2 = .circular →
+    ∃ pre en post, entries = pre ++ en :: post ∧ (restoreLoop h pre).2 = .ok ∧
+      (restoreEntry (restoreLoop h pre).1 en).2 = .circular := by
+  induction entries with
+  | nil => intro h hc; simp [restoreLoop] at hc
+  | cons en rest ih =>
+    intro h hc
+    unfold restoreLoop at hc
+    cases hr : restoreEntry h en with
+    | mk h' o =>
+      rw [hr] at hc
+      cases o with
+      | ok =>
+        simp only [] at hc
+        obtain ⟨pre, en', post, he, hok, hcirc⟩ := ih h' hc
+        refine ⟨en :: pre, en', post, by rw [he]; rfl, ?_, ?_⟩
+        · show (restoreLoop h (en :: pre)).2 = .ok
+          unfold restoreLoop; rw [hr]; exact hok
+        · show (restoreEntry (restoreLoop h (en :: pre)).1 en').2 = .circular
+          unfold restoreLoop; rw [hr]; exact hcirc
+      | circular =>
+        refine ⟨[], en, rest, rfl, by simp [restoreLoop], ?_⟩
+        simp only [restoreLoop]; rw [hr]
+      | noSuchPort => simp at hc
+      | duplicatePort => simp at hc
+      | parseError => simp at hc
+      | fuel => simp at hc
+      | notRemovable => simp at hc
+
+/-- The hub an entry's expression is checked against: the port added if it was not there, the `enabled` key applied. -/
+def entryHub (h : Hub) (en : Entry) : Hub :=
+  match en.enabled with
+  | some v => (setEnabled (addPort h en.id).1 en.id v).1
+  | none => (addPort h en.id).1
+
+theorem restoreEntry_circular (h : Hub) (en : Entry) (hc : (restoreEntry h en).2 = .circular) :
+    ∃ e, en.expr = .text (some e) ∧ (assign (entryHub h en) en.id (some e)).2 = .circular := by
+  unfold restoreEntry at hc
+  unfold entryHub
+  cases hx : en.expr with
+  | absent => rw [hx] at hc; simp at hc
+  | empty =>
+    rw [hx] at hc
+    simp only [] at hc
+    unfold clear at hc
+    split at hc <;> simp at hc
+  | text parsed =>
+    rw [hx] at hc
+    cases parsed with
+    | none =>
+      simp only [] at hc
+      unfold assign at hc
+      split at hc <;> simp at hc
+    | some e => exact ⟨e, rfl, hc⟩
+
 theorem step_acyclic (h : Hub) (op : Op) (ha : Acyclic h) : Acyclic (step h op).1 := by
   cases op with
   | assign id parsed => exact assign_acyclic h id parsed ha
@@ -879,19 +972,39 @@ theorem sLoad_acyclic (s : Sys) (id : String) (ha : Acyclic s.hub) : Acyclic (sL
     | none => exact ha
     | some r => exact loadRecord_acyclic s.hub r r.enabled (by rw [record_id hr]; exact hg) ha
 
+theorem sAddStatic_acyclic (s : Sys) (id : String) (ha : Acyclic s.hub) : Acyclic (sAddStatic s id).1.hub := by
+  unfold sAddStatic
+  cases hg : s.hub.get id with
+  | some p => exact ha
+  | none =>
+    cases hr : s.record id with
+    | none => exact register_acyclic s.hub id false hg ha
+    | some r => exact loadRecord_acyclic s.hub r r.enabled (by rw [record_id hr]; exact hg) ha
+
+theorem sRemove_acyclic (s : Sys) (id : String) (ha : Acyclic s.hub) : Acyclic (sRemove s id).1.hub := by
+  unfold sRemove
+  cases hg : s.hub.get id with
+  | none => exact ha
+  | some p =>
+    simp only []
+    split
+    · exact ha
+    · exact removePort_acyclic s.hub id ha
+
 theorem sstep_acyclic (s : Sys) (op : SOp) (ha : Acyclic s.hub) : Acyclic (sstep s op).1.hub := by
   cases op with
   | hub op =>
     cases op with
     | assign id parsed => exact assign_acyclic s.hub id parsed ha
     | clear id => exact clear_acyclic s.hub id ha
-    | removePort id => exact removePort_acyclic s.hub id ha
+    | removePort id => exact sRemove_acyclic s id ha
     | setEnabled id v => exact setEnabled_acyclic s.hub id v ha
     | reload => exact reload_acyclic _
-    | restore entries => exact restore_acyclic s.hub entries
+    | restore entries => exact restoreOver_acyclic s.statics s.hub entries
     | addPort id => exact sAdd_acyclic s id ha
   | unload id => exact sUnload_acyclic s id ha
   | load id => exact sLoad_acyclic s id ha
+  | addStatic id => exact sAddStatic_acyclic s id ha
 
 theorem srun_acyclic (ops : List SOp) : ∀ s : Sys, Acyclic s.hub → Acyclic (srun s ops).hub := by
   induction ops with
